@@ -51,6 +51,10 @@ type fn struct {
 	oks    map[*types.Var]okInfo
 	ranges []rangeCtx
 	bounds []boundCtx
+	// nonEmpty: local slice/string variables known to have len > 0 in the statement being
+	// translated: the then-branch of `if … && len(x) > 0 && … { … }` when x is a plain local
+	// variable that the branch never assigns, so x[0] is in range there.
+	nonEmpty []*types.Var
 	labels map[string]bool
 	// madeMaps: map-typed expressions (printed) this function visibly made non-nil
 	madeMaps map[string]bool
@@ -486,6 +490,15 @@ func (f *fn) index(e *ast.IndexExpr) *Stmt {
 		return skip()
 	}
 	xs := f.str(e.X)
+	if c, ok := f.intConst(e.Index); ok && c == 0 {
+		if xv := f.varOf(e.X); xv != nil {
+			for _, v := range f.nonEmpty {
+				if v == xv {
+					return pre
+				}
+			}
+		}
+	}
 	if iv := f.varOf(e.Index); iv != nil {
 		for _, r := range f.ranges {
 			if r.key == iv && r.x == xs {
@@ -813,7 +826,10 @@ func (f *fn) stmt(s ast.Stmt) *Stmt {
 			init := f.stmt(s.Init)
 			// translate the condition first: the branches may kill the ok-facts it uses
 			saved := f.snapshot()
+			ne := f.nonEmptyGuards(s)
+			f.nonEmpty = append(f.nonEmpty, ne...)
 			T := f.stmt(s.Body)
+			f.nonEmpty = f.nonEmpty[:len(f.nonEmpty)-len(ne)]
 			f.restore(saved)
 			E := f.stmt(s.Else)
 			f.restore(saved)
@@ -1215,6 +1231,73 @@ func (f *fn) noteMade(lhs, rhs ast.Expr) {
 		return
 	}
 	delete(f.madeMaps, key)
+}
+
+// nonEmptyGuards returns the local variables x for which the condition of s has a top-level
+// conjunct `len(x) > 0`, `len(x) != 0`, `len(x) >= 1`, `0 < len(x)`, `0 != len(x)` or
+// `1 <= len(x)` and which are never assigned (nor have their address taken) in the body.
+func (f *fn) nonEmptyGuards(s *ast.IfStmt) []*types.Var {
+	var out []*types.Var
+	var conj func(e ast.Expr)
+	lenArg := func(e ast.Expr) *types.Var {
+		call, ok := ast.Unparen(e).(*ast.CallExpr)
+		if !ok || len(call.Args) != 1 {
+			return nil
+		}
+		id, ok := call.Fun.(*ast.Ident)
+		if !ok || id.Name != "len" {
+			return nil
+		}
+		if _, isBuiltin := f.l.Info.Uses[id].(*types.Builtin); !isBuiltin {
+			return nil
+		}
+		return f.varOf(call.Args[0])
+	}
+	conj = func(e ast.Expr) {
+		be, ok := ast.Unparen(e).(*ast.BinaryExpr)
+		if !ok {
+			return
+		}
+		if be.Op == token.LAND {
+			conj(be.X)
+			conj(be.Y)
+			return
+		}
+		var v *types.Var
+		cx, okx := f.intConst(be.X)
+		cy, oky := f.intConst(be.Y)
+		switch {
+		case oky && ((be.Op == token.GTR && cy == 0) || (be.Op == token.NEQ && cy == 0) || (be.Op == token.GEQ && cy == 1)):
+			v = lenArg(be.X)
+		case okx && ((be.Op == token.LSS && cx == 0) || (be.Op == token.NEQ && cx == 0) || (be.Op == token.LEQ && cx == 1)):
+			v = lenArg(be.Y)
+		}
+		// only function-local variables: nothing else can change them behind the branch's back
+		if v != nil && !v.IsField() && v.Pkg() != nil && v.Parent() != v.Pkg().Scope() {
+			out = append(out, v)
+		}
+	}
+	conj(s.Cond)
+	if len(out) == 0 || s.Body == nil {
+		return nil
+	}
+	assigned := f.assignedIn(s.Body)
+	addr := map[*types.Var]bool{}
+	ast.Inspect(s.Body, func(n ast.Node) bool {
+		if u, ok := n.(*ast.UnaryExpr); ok && u.Op == token.AND {
+			if v := f.varOf(u.X); v != nil {
+				addr[v] = true
+			}
+		}
+		return true
+	})
+	var keep []*types.Var
+	for _, v := range out {
+		if _, a := assigned[v]; !a && !addr[v] {
+			keep = append(keep, v)
+		}
+	}
+	return keep
 }
 
 // noteNilGuard: after `if m == nil { m = make(…) }` (no else) m is non-nil.
